@@ -174,8 +174,17 @@ class PyLen:
             if e.id in pyfe.params(fn):
                 return Poly.sym("len(%s)" % e.id)
             raise idxmod.Unknown("length of name " + e.id)
-        if isinstance(e, ast.ListComp) and len(e.generators) == 1 and not e.generators[0].ifs:
-            return self.length(e.generators[0].iter, fn, env, depth + 1)
+        if isinstance(e, ast.ListComp) and e.generators and not any(g.ifs for g in e.generators):
+            # one element per combination of the (independent) generators
+            tg = set()
+            out = None
+            for g in e.generators:
+                if {x.id for x in ast.walk(g.iter) if isinstance(x, ast.Name)} & tg:
+                    raise idxmod.Unknown("length of a comprehension whose inner iterable depends on an outer variable")
+                l_ = self.length(g.iter, fn, env, depth + 1)
+                out = l_ if out is None else out * l_
+                tg |= {x.id for x in ast.walk(g.target) if isinstance(x, ast.Name)}
+            return out
         if isinstance(e, ast.Attribute):
             if e.attr == "value":     # UnitArray.value has the array's length
                 return self.length(e.value, fn, env, depth + 1)
